@@ -475,7 +475,8 @@ def single_loop_part(tier, seed, res):
     if not ok:
         res.divergences.append(("loop harness no longer builds: " + log[-300:], None))
         return
-    cases = [c for c in loopgen.ktimer_cases(seed) if "xpost" in " ".join(c[1])] + [c for c in loopgen.retract_cases(seed) if "-event-" in c[0]]
+    cases = [c for c in loopgen.ktimer_cases(seed) if "xpost" in " ".join(c[1])] + [c for c in loopgen.retract_cases(seed) if "-event-" in c[0]] + \
+            [c for c in loopgen.quit_cases() if "-event-batch-" in c[0]]
     n = 0
     with concurrent.futures.ThreadPoolExecutor(max_workers=common.NCPU) as ex:
         for r in common.bounded_map(ex, lambda c: l1.run_case(*c), cases):
